@@ -34,6 +34,8 @@ func errNetconf1Dot1ParseError(msg string) error {
 type netconfPatterns struct {
 	rpcErrors       *regexp.Regexp
 	rpcSingleErrors *regexp.Regexp
+	// an rpc-error element carrying a namespace prefix, whatever the server calls it (nc:, ns0:...)
+	prefixedRPCError *regexp.Regexp
 }
 
 var (
@@ -44,8 +46,9 @@ var (
 func getNetconfPatterns() *netconfPatterns {
 	netconfPatternsInstanceOnce.Do(func() {
 		netconfPatternsInstance = &netconfPatterns{
-			rpcErrors:       regexp.MustCompile(`(?s)<rpc-errors?>(.*)</rpc-errors?>`),
-			rpcSingleErrors: regexp.MustCompile(`(?sU)<rpc-errors?>.*</rpc-errors?>`),
+			rpcErrors:        regexp.MustCompile(`(?s)<rpc-errors?>(.*)</rpc-errors?>`),
+			rpcSingleErrors:  regexp.MustCompile(`(?sU)<rpc-errors?>.*</rpc-errors?>`),
+			prefixedRPCError: regexp.MustCompile(`</?[\w.\-]+:rpc-errors?[\s/>]`),
 		}
 	})
 
@@ -121,11 +124,11 @@ func (r *NetconfResponse) Record(b []byte) {
 
 // checkFailed marks the response as failed if b contains any of the rpc-error markers.
 func (r *NetconfResponse) checkFailed(b []byte) {
-	if !util.ByteContainsAny(b, r.FailedWhenContains) {
+	patterns := getNetconfPatterns()
+
+	if !util.ByteContainsAny(b, r.FailedWhenContains) && !patterns.prefixedRPCError.Match(b) {
 		return
 	}
-
-	patterns := getNetconfPatterns()
 
 	r.Failed = &OperationError{
 		Input:       string(r.Input),
